@@ -49,6 +49,9 @@ def gen_bool_mix(types):
                 out.append(P(d, "if ((a %s b) & 1) { r = a; } else { r = b; }" % c, ("if-cmp&", c, t, u)))
                 out.append(P(d, "PdV = (a %s b) ? 0xff : 0x00;" % c, ("pred-cmp", c, t, u)))
                 out.append(P(d, "RdV = (a %s b);" % c, ("reg=cmp", c, t, u)))
+                out.append(P(d, "%s q = (a %s b); r = q;" % (u, c), ("init=cmp", c, t, u)))
+                out.append(P(d, "%s q = !a; %s p = a && b; r = q + p;" % (u, t), ("init=logic", c, t, u)))
+                out.append(P(d, "%s q = (a %s b) ? a : b; r = q;" % (u, c), ("init=cond", c, t, u)))
                 out.append(P(d, "mem_store_u8(EA, (a %s b));" % c, ("store-cmp", c, t, u)))
     return out
 
@@ -102,6 +105,8 @@ def gen_folding():
 def gen_control():
     out = []
     d = [("int32_t", "a", "input"), ("int32_t", "b", "input"), ("int64_t", "r", "local")]
+    for st in ["r = RdV = a;", "RdV = RxV = RyV = RsV;", "r = RdV = RxV = RyV = a;", "RdV = RxV = i++;", "RdV = RxV = clz32(a);", "RdV = RxV = get_npc(pkt);", "r = b = RdV = a + b;", "RdV = RxV = ({ r = a; r + 1; });"]:
+        out.append(P(d, st, ("chain", st)))
     bodies = ["r = a;", "r = a + b; RdV = r;", "mem_store_u32(a, b);", "JUMP(a);", "r = clz32(a);", "r = a++;", "{ r = b; }", ";", "if (b) { r = a; }", "for (i = 0; i < 2; i++) { r += a; }"]
     for x in bodies:
         out.append(P(d, "if (a) { %s }" % x, ("if", x)))
